@@ -159,7 +159,8 @@ class Doc(object):
                 elif k < 0.45 and samplers:
                     self.sub(pn, 'texture', texture=r.choice(samplers), texcoord=r.choice(['UVSET0', 'TEX']))
                 else:
-                    n = r.choice([3, 4, 4])
+                    # (a colour of one or two components is padded like one of three: missing channels 0, alpha 1)
+                    n = r.choice([3, 4, 4] if self.o.get('schema') else [1, 2, 3, 3, 4, 4])
                     self.sub(pn, 'color', self.floats([r.choice([0.0, 1.0, 0.5, 0.25]) for _ in range(n)]))
                 if p == 'transparent' and r.random() < 0.5:
                     pn.set('opaque', r.choice(['A_ONE', 'RGB_ZERO']))
@@ -486,6 +487,12 @@ class Doc(object):
             self.sub(pm, 'physics_material', id=self.uid('pm'))
             libs.append(pm)
         libs = [l for l in libs if len(l) or r.random() < 0.5]
+        if r.random() < 0.2 and not self.o.get('schema'):
+            # several library elements of one kind that hold nothing the loader keeps
+            kind = r.choice(['library_controllers', 'library_force_fields'] + [l.tag.split('}')[1] for l in libs if not len(l)])
+            if not any(l.tag.split('}')[1] == kind and len(l) for l in libs):
+                for _ in range(r.randint(2, 3)):
+                    libs.append(self.el(kind))
         # the schema allows any number of library elements of one kind: split some
         for l in list(libs):
             if len(l) >= 2 and r.random() < 0.15:
